@@ -14,8 +14,9 @@ import time
 
 VERIF = os.path.dirname(os.path.dirname(os.path.abspath(__file__)))
 REPO = os.environ.get("VERIF_REPO", "/repo")
-PY = os.path.join(VERIF, ".venv", "bin", "python")
-CROSSHAIR = os.path.join(VERIF, ".venv", "bin", "crosshair")
+VENV = os.environ.get("VERIF_VENV") or os.path.join(VERIF, ".venv")
+PY = os.path.join(VENV, "bin", "python")
+CROSSHAIR = os.path.join(VENV, "bin", "crosshair")
 GUARD = "GFFUTILS_VERIF"
 EXIT_OK, EXIT_VIOLATION, EXIT_HARNESS = 0, 1, 3
 NCPU = int(os.environ.get("VERIF_JOBS", str(os.cpu_count() or 4)))
